@@ -32,7 +32,7 @@ BACKENDS = ["spqlios-fma", "spqlios-avx", "nayuki-avx", "nayuki-portable", "fftw
 GUARD = "-DTFHE_VERIF_SIM"
 
 SAN = {
-    "asan": "-fsanitize=address,undefined -fno-sanitize=signed-integer-overflow,shift-base,shift-exponent -fno-omit-frame-pointer -fno-sanitize-recover=undefined",
+    "asan": "-fsanitize=address,undefined -fno-sanitize=signed-integer-overflow,shift-base,shift-exponent,null,vptr -fno-omit-frame-pointer -fno-sanitize-recover=undefined",
     "tsan": "-fsanitize=thread -fno-omit-frame-pointer",
 }
 
@@ -60,6 +60,7 @@ def tree_hash():
 
 def sim_hash():
     h = hashlib.sha1()
+    h.update(repr(sorted(SAN.items())).encode())
     simroot = os.path.join(VERIF, "sim")
     for d, dirs, fs in os.walk(simroot):
         dirs.sort()
@@ -108,7 +109,8 @@ def variant_parts(variant):
 def build_lib(th, variant):
     """cmake+make the five shared libs for one variant; returns dir with the .so files"""
     bt, san = variant_parts(variant)
-    bdir = os.path.join(CACHE, th, "lib-" + variant)
+    fl = hashlib.sha1((SAN.get(san, "") + GUARD).encode()).hexdigest()[:6]
+    bdir = os.path.join(CACHE, th, "lib-%s-%s" % (variant, fl))
     stamp = os.path.join(bdir, "OK")
     libdir = os.path.join(bdir, "libtfhe")
     if os.path.exists(stamp):
